@@ -90,6 +90,7 @@ type ReplayFile struct {
 	Violation *Violation          `json:"violation"`
 	TraceHash uint64              `json:"trace_hash"`
 	Minimised bool                `json:"minimised"`
+	Deep      bool                `json:"deep_scenario_space,omitempty"`
 	ShrinkLog []string            `json:"shrink_log,omitempty"`
 	Trace     []string            `json:"schedule_and_fault_trace"`
 	Faults    map[string]int      `json:"faults_fired"`
@@ -432,7 +433,7 @@ func RunWorker(cfg WorkerCfg) *WorkerOut {
 				slog = append(slog, "minimised tape did not reproduce; kept the original")
 			}
 			rf := &ReplayFile{Property: cfg.Prop, BaseSeed: cfg.BaseSeed, RunIndex: r, RunSeed: seed, Tape: tapeToMap(rec),
-				Scenario: fin.Scen, Violation: fin.Viol, TraceHash: fin.St.TraceHash, Minimised: len(slog) > 0, ShrinkLog: slog,
+				Scenario: fin.Scen, Violation: fin.Viol, TraceHash: fin.St.TraceHash, Minimised: len(slog) > 0, Deep: Deep, ShrinkLog: slog,
 				Trace: tailTrace(fin.Trace, 400), Faults: fin.St.Fault}
 			if rf.Violation == nil {
 				rf.Violation = &v
@@ -487,6 +488,7 @@ func Replay(path string, pre func(seed uint64)) (ok bool, msg string, rr *RunRes
 	if pre != nil {
 		pre(rf.RunSeed)
 	}
+	Deep = rf.Deep
 	res := p.Run(NewReplayTape(mapToTape(rf.Tape)), true)
 	if res.Viol == nil {
 		return false, "no violation on replay", res
